@@ -116,9 +116,11 @@ class CifFile():
     def _misc_dict(self) -> Dict[str, str]:
         misc_dict = {}
         misc_dict["temperature"] = round(self.data.temp_in_kelvin, 3) or '?'
-        misc_dict["crystal_size_max"] = self.data.size.max or '?'
-        misc_dict["crystal_size_mid"] = self.data.size.mid or '?'
-        misc_dict["crystal_size_min"] = self.data.size.min or '?'
+        size = self.data.size
+        has_size = size is not None and None not in (size.dx, size.dy, size.dz)
+        misc_dict["crystal_size_max"] = (size.max if has_size else None) or '?'
+        misc_dict["crystal_size_mid"] = (size.mid if has_size else None) or '?'
+        misc_dict["crystal_size_min"] = (size.min if has_size else None) or '?'
         misc_dict["wavelength"] = self.data.wavelength or '?'
         misc_dict["R1"] = self.data.R1 or '?'
         misc_dict["wR2"] = self.data.wr2 or '?'
